@@ -8,6 +8,7 @@
 """
 import copy
 import io
+import re
 import posixpath
 import sys
 
@@ -28,10 +29,29 @@ _LONG = {"-i": "--input", "-o": "--output", "-a": "--anonymize-ips", "-p": "--an
          "-s": "--salt", "-w": "--sensitive-words", "-n": "--as-numbers", "-r": "--reserved-words", "-d": "--dump-ip-map"}
 
 
-def cli_argv(o, inp, out, dump=None, style=0):
+_CFG_SAFE = re.compile(r"[A-Za-z0-9.,/:_-]+\Z")
+
+
+def cli_argv(o, inp, out, dump=None, style=0, cfg_sink=None):
     """The command line for an option set.  `style` (from the plan's knobs) picks long or short option names, the
-    `--opt=value` spelling and the order of the groups; all spellings are equivalent for the documented CLI."""
+    `--opt=value` spelling and the order of the groups; all spellings are equivalent for the documented CLI.
+    With bit 8 (and a `cfg_sink` that stores a text and returns its path) the options whose values are plain are given
+    in a configuration file instead (`-c`), next to decoy values for options that stay on the command line, which wins."""
     argv = _cli_groups(o, inp, out, dump)
+    if style & 8 and cfg_sink is not None:
+        keep, cfg = [], ["# written by the harness"]
+        for g in argv:
+            name = _LONG.get(g[0], g[0])
+            if g[0] in ("-i", "-o", "-d") or (len(g) == 2 and not _CFG_SAFE.match(g[1])):
+                keep.append(g)
+                if g[0] == "-s":
+                    cfg.append("salt = decoy-salt-from-config")
+            elif len(g) == 1:
+                cfg.append("%s = true" % name[2:])
+            else:
+                cfg.append("%s = %s" % (name[2:], g[1]))
+        argv = keep + [["-c", cfg_sink("\n".join(cfg) + "\n")]]
+    style &= 7
     if style:
         groups = []
         for g in argv:
@@ -177,7 +197,13 @@ def run_step(fs, proc, step, hist):
     hist["steps"].append(rec)
     try:
         if entry == "cli":
-            proc.nc.main(cli_argv(o, inp, out, dump, style=(fs.knobs or {}).get("cli_style", 0)))
+            def cfg_sink(text):
+                # the configuration file lives outside every tree the oracles look at (not traced, not in snapshots)
+                path = fs.root + "/.systmp/netconan-%d.cfg" % len(hist["steps"])
+                fs.files[path] = bytearray(text.encode("utf-8"))
+                return path
+
+            proc.nc.main(cli_argv(o, inp, out, dump, style=(fs.knobs or {}).get("cli_style", 0), cfg_sink=cfg_sink))
         elif entry == "files":
             proc.af.anonymize_files(inp, out, **api_kwargs(o, dump))
         elif entry in ("file", "io"):
